@@ -7,6 +7,7 @@ package guard
 import (
 	"fmt"
 	"runtime/debug"
+	"sync"
 	"syscall"
 	"unsafe"
 )
@@ -163,4 +164,52 @@ func (g *Buf) Where(addr uintptr) string {
 		return fmt.Sprintf("%+d bytes from the start of the buffer (len %d, cap %d)", d, g.n, g.capn)
 	}
 	return ""
+}
+
+// ---- memory around a 2^32-aligned address ----------------------------------------------------------------------------------
+
+var (
+	span4GOnce sync.Once
+	span4G     []byte
+)
+
+// Span4G returns a process-wide mapping of 2*half bytes (half = 64 KiB) whose MIDDLE byte index `half` lies at an address that is
+// a multiple of 2^32 (nil if the kernel grants no such address). Pointers into it differ in their upper 32 bits on the two sides:
+// code that compares, increments or bounds-checks an address with a 32-bit instruction goes wrong exactly here, and nowhere else
+// in a process whose heap, stack and mappings happen to lie inside one 4 GiB window.
+func Span4G() (mem []byte, half int) {
+	half = 64 << 10
+	span4GOnce.Do(func() {
+		const mapFixedNoReplace = 0x100000
+		for k := uintptr(0x6f00); k < 0x6f40; k++ {
+			boundary := k << 32
+			addr, _, errno := syscall.Syscall6(syscall.SYS_MMAP, boundary-uintptr(half), uintptr(2*half),
+				syscall.PROT_READ|syscall.PROT_WRITE, syscall.MAP_ANON|syscall.MAP_PRIVATE|mapFixedNoReplace, ^uintptr(0), 0)
+			if errno != 0 {
+				continue
+			}
+			if addr != boundary-uintptr(half) { // an old kernel ignored the flag and chose another place
+				syscall.Syscall(syscall.SYS_MUNMAP, addr, uintptr(2*half), 0)
+				continue
+			}
+			span4G = unsafe.Slice((*byte)(unsafe.Pointer(addr)), 2*half)
+			return
+		}
+	})
+	return span4G, half
+}
+
+// Across4G returns n bytes of the Span4G mapping placed so that `before` of them lie below the 2^32-aligned address (0 <= before
+// <= n; before == n: the buffer ENDS at the boundary, 0: it starts there). The bytes are filled from src if given. nil if no such
+// mapping exists on this machine.
+func Across4G(n, before int, src []byte) []byte {
+	mem, half := Span4G()
+	if mem == nil || before > half || n-before > half || before < 0 {
+		return nil
+	}
+	b := mem[half-before : half-before+n : half-before+n]
+	if src != nil {
+		copy(b, src)
+	}
+	return b
 }
